@@ -180,7 +180,7 @@ def report(prop, res, args, extra):
         "assumptions": props.ASSUMPTIONS + props.PROP_ASSUMPTIONS.get(prop, []),
         "wall_s": round(res["wall_s"], 2),
         "violations": len(res["violations"]) + (len(extra.get("violations", [])) if extra else 0),
-        "known_findings": [k["obligation"] for k in res["known_hits"]],
+        "known_findings": [k["obligation"] for k in res["known_hits"]] + (list(extra.get("known", [])) if extra else []),
         "undecided": [u.get("obligation") or u["contract"] for u in res["undecided"]],
         "exit_code": code,
     }
